@@ -1,8 +1,9 @@
 import StraxModel.Lemmas.Contract
+import StraxModel.Generated.ChunkInitRange
 /-
   C12 — outputs that violate a plugin's declared contract are rejected, not stored.
 
-  27 theorems: 19 full-strength (one or more per violation kind, each for ALL inputs of its class),
+  29 theorems: 21 full-strength (incl. the two translator ties `generated_chunk_init_*`) (one or more per violation kind, each for ALL inputs of its class),
   3 `_partial` (the storage half, single-thread processor only), 5 concrete witnesses (`*_accepted_old`,
   `row_outside_chunk_counterexample_501`, `gap_in_target_stored_eager_counterexample`), over the model of the code as it
   is now (`Model/Contract.lean`): D2 fixed (the constructor compares the declared dtype with the
@@ -392,5 +393,45 @@ theorem gap_in_target_stored_eager_counterexample :
     let r := processEager contCheck none [.ok (0, 10), .ok (10, 20), .ok (21, 30), .ok (30, 40)] ({} : Saver (Int × Int))
     r.1.visible = true ∧ r.2 = some .valueError := by
   decide +kernel
+
+/-! ### 10. translator tie: the range checks of `Chunk.__init__`, regenerated from the current source -/
+
+/-- TRANSLATOR TIE.  `Generated.chunkInitRange` is regenerated on every run from the AST of
+`Chunk.__init__` in /repo/strax/chunk.py (the `if … : raise ValueError` statements over `self.start`,
+`self.end`, `data_starts_at`, `data_ends_at`, in source order).  For every start, end and row list the
+model's constructor (`mkChunk`, on which every row-range theorem above rests) accepts exactly when the
+checks the SOURCE makes pass on the values the source reads off the data (`len(data) != 0`,
+`data[0]['time']`, maximum end over the last-rows window).  A changed comparison (`<` ↔ `<=`), a dropped
+or added check in the source breaks this obligation. (Run annotations absent, a run id given: the
+annotation setters are C07's / C14's.) -/
+theorem generated_chunk_init_range (dataType kind rid : String) (start stop : Int) (rows : List Row) (target : Nat) :
+    (mkChunk dataType kind (some rid) start stop rows none none target).toBool
+      = (Generated.chunkInitRange start stop (!rows.isEmpty) ((rows.head?.map (·.time)).getD 0)
+          ((lastEndMax rows).getD 0)).toBool := by
+  cases rows with
+  | nil =>
+    simp only [mkChunk, Generated.chunkInitRange, bind, Except.bind, pure, Except.pure, throw, throwThe, MonadExceptOf.throw]
+    by_cases h1 : start < 0 <;> by_cases h2 : start > stop <;> simp [h1, h2, Except.toBool, sortRuns, runsOverlap]
+  | cons r0 rs =>
+    obtain ⟨e, he⟩ := lastEndMax_isSome_of_ne_nil (rows := r0 :: rs) (by simp)
+    simp only [mkChunk, Generated.chunkInitRange, he, bind, Except.bind, pure, Except.pure, throw, throwThe, MonadExceptOf.throw]
+    by_cases h1 : start < 0 <;> by_cases h2 : start > stop <;> by_cases h3 : r0.time < start <;> by_cases h4 : e > stop <;>
+      simp [h1, h2, h3, h4, Except.toBool, sortRuns, runsOverlap]
+
+/-- TRANSLATOR TIE.  The model looks at the ends of exactly the last `N` rows, `N` being the constant of
+`strax.endtime(self.data[-N:]).max()` in the current source (`Generated.chunkInitWindow`): the bound
+`rows.length ≤ 500` of `row_outside_chunk_rejected` is the source's window. -/
+theorem generated_chunk_init_window (rows : List Row) :
+    lastEndMax rows =
+      ((rows.drop (rows.length - Generated.chunkInitWindow)).head?).map
+        (fun r => maxEnd r.endt (rows.drop (rows.length - Generated.chunkInitWindow)).tail) := by
+  have h : Generated.chunkInitWindow = 500 := rfl
+  rw [h]; unfold lastEndMax
+  generalize rows.drop (rows.length - 500) = l
+  cases l <;> rfl
+
+/-- non-vacuity: the generated checks accept the rows of `rowsIn` in [0, 10) and refuse them in [2, 10) -/
+example : (Generated.chunkInitRange 0 10 true 1 8).toBool = true ∧ (Generated.chunkInitRange 2 10 true 1 8).toBool = false := by
+  decide
 
 end Strax.C12
